@@ -15,7 +15,7 @@ VARIABLES tid, l, ok
 tvars == <<vars, tid, l, ok>>
 Traces == JsonDeserialize(IOEnv.TRACE_FILE)
 TSlots == 1..(CHOOSE m \in 1..64 : (\A i \in 1..Len(Traces) : Traces[i].NS <= m) /\ (m = 1 \/ \E i \in 1..Len(Traces) : Traces[i].NS = m))   \* as many slots as the largest trace of the batch uses
-TB == 2048
+TB == Traces[1].B      \* the size of the implementation's random batch (2048 in the pinned tree), read from the objects
 RelTol(x) == DigShift(x)          \* x / 2^30
 
 PairsToFn(ps) == [c \in {ps[i][1] : i \in 1..Len(ps)} |-> ps[CHOOSE i \in 1..Len(ps) : ps[i][1] = c][2]]
